@@ -95,6 +95,10 @@ type Entropy struct {
 	// it (returning the octets it still had together with the error - a short read)
 	Budget    int
 	delivered int
+	// FailOnce: only the Read number FailAt fails; later reads succeed again (a transient failure)
+	FailOnce bool
+	// MaxRead > 0: a Read delivers at most MaxRead octets (a short read without error, which the io.Reader contract allows)
+	MaxRead int
 }
 
 var ErrInjected = errors.New("probe: injected entropy failure")
@@ -103,9 +107,12 @@ func (e *Entropy) Read(p []byte) (int, error) {
 	e.mu.Lock()
 	defer e.mu.Unlock()
 	e.Reads++
-	if e.FailAt != 0 && e.Reads >= e.FailAt {
+	if e.FailAt != 0 && (e.Reads == e.FailAt || (e.Reads > e.FailAt && !e.FailOnce)) {
 		e.Failed = true
 		return 0, ErrInjected
+	}
+	if e.MaxRead > 0 && len(p) > e.MaxRead {
+		p = p[:e.MaxRead]
 	}
 	if e.Budget > 0 && e.delivered+len(p) > e.Budget {
 		n := e.Budget - e.delivered
@@ -146,10 +153,29 @@ func WithEntropyBudget(stream []byte, budget int, f func(e *Entropy)) {
 	withEntropy(stream, 0, budget, f)
 }
 
+// EntropyOpts selects the behaviour of the replacement source.
+type EntropyOpts struct {
+	Stream   []byte
+	FailAt   int  // 1-based Read call that fails (0 = never)
+	FailOnce bool // only that Read fails
+	Budget   int  // > 0: runs dry after this many octets (fails inside a Read)
+	MaxRead  int  // > 0: at most this many octets per Read (short reads)
+}
+
+// WithEntropyOpts is the general form of WithEntropy.
+func WithEntropyOpts(o EntropyOpts, f func(e *Entropy)) {
+	withEntropyOpts(o, f)
+}
+
 func withEntropy(stream []byte, failAt, budget int, f func(e *Entropy)) {
+	withEntropyOpts(EntropyOpts{Stream: stream, FailAt: failAt, Budget: budget}, f)
+}
+
+func withEntropyOpts(o EntropyOpts, f func(e *Entropy)) {
+	stream := o.Stream
 	entropyMu.Lock()
 	defer entropyMu.Unlock()
-	e := &Entropy{stream: stream, FailAt: failAt, Budget: budget, lcg: 0x9e3779b97f4a7c15}
+	e := &Entropy{stream: stream, FailAt: o.FailAt, Budget: o.Budget, FailOnce: o.FailOnce, MaxRead: o.MaxRead, lcg: 0x9e3779b97f4a7c15}
 	for _, b := range stream {
 		e.lcg = e.lcg*131 + uint64(b) + 1
 	}
